@@ -1,7 +1,7 @@
 SPECIFICATION Spec
 CONSTANTS
-  Tier = "quick"
+  Tier = "thorough"
   Canonical = TRUE
-  T <- RefT
+  Mode = "design"
 INVARIANT LawsHold
 INVARIANT SortTotal
